@@ -1081,6 +1081,9 @@ func (m *Machine) viol(kind, got, detail string) Violation {
 	if m.cur != nil {
 		state = m.cur.Desc
 	}
+	if strings.HasPrefix(kind, "goaway-") {
+		state = "any" // what the GOAWAY says is wrong whatever triggered it
+	}
 	return Violation{Kind: kind, State: state, Got: got, Detail: detail}
 }
 
